@@ -17,8 +17,8 @@ from fractions import Fraction
 
 import numpy as np
 
-from .common import plist, frac
-from .c19 import gen_kv, points_for, Stream, span_oracle
+from .common import plist
+from .c19 import gen_kv, points_for, Stream, span_oracle, frac
 
 THEOREMS = [
     'Pyiga.Props.C02.findspan_spec',
@@ -84,6 +84,8 @@ def rows_oracle(kv, p, us, nd, get):
         for j, u in enumerate(us):
             s, ex = cox_oracle(kv, p, u, nd)
             fa, V = get(j)
+            if not np.all(np.isfinite(np.asarray(V, dtype=float))):
+                return 'non-finite basis value/derivative at u=%r' % float(u)
             if int(fa) != s - p:
                 return 'first active index at u=%r is %d, the span containing u starts its functions at %d' % (float(u), int(fa), s - p)
             for k in range(nd + 1):
@@ -139,10 +141,24 @@ def run(ctx):
             for nm, orc, t in zip(names, oracles, toks):
                 if t != 'ok':
                     return nm, orc
-            return default, (oracles[0] if oracles else None)
+            def any_oracle():
+                # no per-set verdict (e.g. a non-finite value made the request unparsable): try every route's oracle
+                for nm, orc in zip(names, oracles):
+                    if orc is None:
+                        continue
+                    try:
+                        d = orc()
+                    except Exception as ex:
+                        d = 'implementation raised %s: %s' % (type(ex).__name__, str(ex)[:200])
+                    if d is not None:
+                        return '%s: %s' % (nm, d)
+                return None
+            return default, any_oracle
         return f
 
-    for it in range(nkv):
+    def one(it):
+        # one knot vector; a function so that the oracles' closures keep *this* iteration's objects
+        nonlocal npts
         k, p, style = gen_kv(rng, pmax=12, maxspans=8)
         KV = bspline.KnotVector(k.copy(), p)
         kvd = plist(k, frac)
@@ -235,7 +251,13 @@ def run(ctx):
             res = guarded(fn)
             ctx.count('route ' + nm)
             if isinstance(res, str) or isinstance(fa, str):
-                S.add('rows 0 0 0 0 0', 'impl-%s' % (res if isinstance(res, str) else fa), nm, None, info)
+                def raises(fn=fn):
+                    try:
+                        fn()
+                    except Exception as ex:
+                        return 'implementation raised %s: %s' % (type(ex).__name__, str(ex)[:200])
+                    return None
+                S.add('rows 0 0 0 0 0', 'impl-%s' % (res if isinstance(res, str) else fa), nm, raises, info)
                 continue
             ndi, idx, V = res
             idx = fa if idx is None else idx
@@ -255,7 +277,7 @@ def run(ctx):
                     s, ex = cox_oracle(k, p, u, 0)
                     want = ex[0][i - (s - p)] if s - p <= i <= s else Fraction(0)
                     got = bspline.single_ev(KV, i, float(u))
-                    if abs(Fraction(float(got)) - want) > Fraction(1, 10 ** 9):
+                    if not np.isfinite(got) or abs(Fraction(float(got)) - want) > Fraction(1, 10 ** 9):
                         return 'single_ev(kv, %d, %r) = %r, Cox-de Boor %r' % (i, float(u), float(got), float(want))
                 return None
 
@@ -299,11 +321,11 @@ def run(ctx):
                 return y.ravel()
             y = guarded(f)
             ctx.count('route ' + nm.split('[')[0])
-            orc = make_spl_oracle(k, p, c, us, kk, fn)
+            sorc = make_spl_oracle(k, p, c, us, kk, fn)
             if isinstance(y, str):
-                S.add('rows 0 0 0 0 0', 'impl-' + y, nm, orc, dict(info, coeffs=c.tolist()))
+                S.add('rows 0 0 0 0 0', 'impl-' + y, nm, sorc, dict(info, coeffs=c.tolist()))
                 continue
-            names.append(nm); oracles.append(orc)
+            names.append(nm); oracles.append(sorc)
             sets.append('%d %d %s' % (fct, kk, plist(y, frac)))
         if sets:
             S.add('spl %d %s %s %s %d %s' % (p, kvd, cd, usd, len(sets), ' '.join(sets)), 'sets=%s' % ' '.join(['ok'] * len(sets)),
@@ -339,7 +361,7 @@ def run(ctx):
                         raise ValueError('shape')
                     return y
                 y = guarded(f)
-                o = (lambda d1=d1, d2=d2, fn=fn: orc(d1, d2, fn()))
+                o = (lambda d1=d1, d2=d2, fn=fn, orc=orc: orc(d1, d2, fn()))
                 if isinstance(y, str):
                     S.add('rows 0 0 0 0 0', 'impl-' + y, nm, o, info2)
                     continue
@@ -352,6 +374,8 @@ def run(ctx):
             ctx.count('2-D tensor-product cases')
         if len(ctx.samples) < 3 and p >= 3:
             ctx.sample({'kv': k.tolist(), 'p': p, 'numderiv': nd, 'points': us.tolist()[:6]})
+    for it in range(nkv):
+        one(it)
     ctx.count('evaluation points', npts)
 
     # ---- probe: degrees beyond 12 (C `int fac` = p!/(p-k)! overflows 32 bits from p = 13, k = 11)
@@ -360,24 +384,37 @@ def run(ctx):
     for p in (13, 14, 16):
         kvh = bspline.make_knots(p, 0.0, 1.0, 2)
         u = 0.3
-        for nd in sorted(set([10, p])):
-            V = np.asarray(bspline.active_deriv(kvh, u, nd))
+        safe = max(kk for kk in range(p + 1) if np.prod([float(p - i) for i in range(kk)]) < 2.0 ** 31)   # orders whose `fac` fits an int32
+        for nd in (safe, p):
+            try:
+                V = np.asarray(bspline.active_deriv(kvh, u, nd), dtype=float)
+                fah = int(kvh.first_active_at(u))
+            except Exception as ex:
+                hi.add('rows 0 0 0 0 0', 'impl-err-' + type(ex).__name__, 'active_deriv[p>=13]', None, {'p': p, 'numderiv': nd, 'u': u})
+                continue
             s, ex = cox_oracle(kvh.kv, p, u, nd)
-            worst = max(abs(Fraction(float(V[kk][r])) - ex[kk][r]) / max(abs(x) for x in ex[kk]) for kk in range(nd + 1) for r in range(p + 1))
             ctx.count('high-degree probe evaluations')
-            if worst > Fraction(1, 10 ** 9) and overflow is None:
-                kbad = min(kk for kk in range(nd + 1) if max(abs(Fraction(float(V[kk][r])) - ex[kk][r]) for r in range(p + 1)) > Fraction(1, 10 ** 9) * max(abs(x) for x in ex[kk]))
-                overflow = {'call': 'active_deriv(make_knots(%d, 0.0, 1.0, 2), %r, %d)' % (p, u, nd), 'first_wrong_derivative_order': kbad,
-                            'relative_error': float(worst), 'p': p, 'u': u}
-            hi.add('rows %d %d %s %s 1 %d %s %s' % (p, nd, plist(kvh.kv, frac), plist([u], frac), nd, plist([kvh.first_active_at(u)]), plist(V.ravel(), frac)),
-                   'idx=%s sets=ok spec=ok' % plist([kvh.first_active_at(u)]), 'active_deriv[p>=13]', None, None)
+            if V.shape != (nd + 1, p + 1) or not np.all(np.isfinite(V)):
+                hi.add('rows 0 0 0 0 0', 'impl-bad-shape-or-nonfinite', 'active_deriv[p>=13]', None, {'p': p, 'numderiv': nd, 'u': u})
+                continue
+            relerr = [max(abs(Fraction(float(V[kk][r])) - ex[kk][r]) for r in range(p + 1)) / max(abs(x) for x in ex[kk]) for kk in range(nd + 1)]
+            worst = max(relerr)
+            # the overflow signature: every order whose `fac` fits is right, some higher order is wrong
+            if nd > safe and worst > Fraction(1, 10 ** 9) and all(e <= Fraction(1, 10 ** 9) for e in relerr[:safe + 1]):
+                if overflow is None:
+                    kbad = min(kk for kk in range(nd + 1) if relerr[kk] > Fraction(1, 10 ** 9))
+                    overflow = {'call': 'active_deriv(make_knots(%d, 0.0, 1.0, 2), %r, %d)' % (p, u, nd), 'first_wrong_derivative_order': kbad,
+                                'relative_error': float(worst), 'p': p, 'u': u}
+                continue        # reported under its own key; everything else goes through the diff below
+            hi.add('rows %d %d %s %s 1 %d %s %s' % (p, nd, plist(kvh.kv, frac), plist([u], frac), nd, plist([fah]), plist(V.ravel(), frac)),
+                   'idx=%s sets=ok spec=ok' % plist([fah]), 'active_deriv[p>=13]',
+                   rows_oracle(kvh.kv, p, [u], nd, lambda j, fah=fah, V=V: (fah, V)), {'p': p, 'numderiv': nd, 'u': u})
     if overflow is not None:
         ctx.violation('ders-fac-int32-overflow',
                       'derivatives of order >= %d at degree %d are wrong by O(1): `cdef int fac` (p!/(p-k)!) overflows 32 bits — %s'
                       % (overflow['first_wrong_derivative_order'], overflow['p'], overflow['call']), overflow, True)
-        ctx.notes.append('high-degree probe stream is not diffed while the int32 overflow of `fac` is present (reported under its own key)')
-    else:
-        hi.run('bsp-high-degree', THEOREMS)
+        ctx.notes.append('high-degree probe: requests showing exactly the int32-overflow signature are reported under their own key, all others are diffed')
+    hi.run('bsp-high-degree', THEOREMS)
 
     # ---- probe (subprocess): bspline.deriv delegates to scipy's splev(der>=1), whose FITPACK routine supports degree <= 5 only
     import subprocess, sys as _sys, json as _json
@@ -438,7 +475,7 @@ def make_tp_oracle(k1, p1, k2, p2, C, x1, x2):
                     for r2 in range(p2 + 1):
                         term = Fraction(float(C[s1 - p1 + r1, s2 - p2 + r2])) * e1[d1][r1] * e2[d2][r2]
                         want += term; scale += abs(term)
-                if abs(Fraction(float(Y[a, b])) - want) > Fraction(1, 10 ** 8) * scale:
+                if not np.isfinite(Y[a, b]) or abs(Fraction(float(Y[a, b])) - want) > Fraction(1, 10 ** 8) * scale:
                     return 'tensor-product value (orders %d,%d) at (%r,%r): implementation %r, exact %r' % (d1, d2, float(u), float(v), float(Y[a, b]), float(want))
         return None
     return orc
